@@ -49,12 +49,17 @@ def run_case(case) -> Dict:
     if case["old"] not in text:
         return {**case, "result": "stale"}
     new = text.replace(case["old"], case["new"], case.get("count", 1))
-    for old2, new2 in case.get("also", ()):  # further edits of the same file that belong to the same change
-        if old2 not in new:
+    overlay = {path: new}
+    for edit in case.get("also", ()):  # further edits that belong to the same change: (old, new) in the same file, (file, old, new) elsewhere
+        p2, (old2, new2) = (path, edit) if len(edit) == 2 else (os.path.join(SRC, edit[0]), edit[1:])
+        if p2 not in overlay:
+            with open(p2) as fh:
+                overlay[p2] = fh.read()
+        if old2 not in overlay[p2]:
             return {**case, "result": "stale"}
-        new = new.replace(old2, new2, 1)
+        overlay[p2] = overlay[p2].replace(old2, new2, 1)
     base, err0 = failing_keys(case["prop"], None)
-    got, err = failing_keys(case["prop"], {path: new})
+    got, err = failing_keys(case["prop"], overlay)
     fresh = got - base
     res = {"id": case["id"], "prop": case["prop"], "kind": case["kind"], "new_failures": sorted(fresh), "analysis_error": err}
     if case["kind"] == "mutant":
